@@ -27,7 +27,7 @@ class Prop(BaseProp):
     must_see = ["exact_tie_distance_equals_window", "simultaneous_event", "spike_on_t_start", "spike_on_t_end",
                 "max_tau_none", "max_tau_zero", "max_tau_positive", "mrts_below_all_isis", "mrts_between_isis",
                 "mrts_above_all_isis", "both_empty", "coincidence_found", "interp_regime_theta_below_min",
-                "interp_regime_theta_between", "interp_regime_theta_above", "max_tau_python_int", "mrts_python_int"]
+                "interp_regime_theta_between", "interp_regime_theta_above", "max_tau_python_int", "mrts_python_int", "history_probe"]
     must_contracts = ["inv:DiscreteFunc", "post:get_tau"]
     arm_files = [("pyspike/cython/python_backend.py", ["coincidence_python", "coincidence_single_python", "get_tau",
                                                        "Interpolate"])]
@@ -87,6 +87,26 @@ class Prop(BaseProp):
             for e in (0, -1):
                 ctx.expect(common.finite([prof.y[e], prof.mp[e]]) and 0 <= prof.y[e] <= prof.mp[e] and prof.mp[e] >= 1,
                            "sync-edge-entry", "edge entry %d: y=%r mp=%r" % (e, prof.y[e], prof.mp[e]))
+        if ctx.evals % 3 == 0 and len(s1) + len(s2) <= 40:
+            # state must not leak between calls (see C01.history_probes)
+            ctx.count("history_probe")
+            prof.y[:] = -7.0
+            prof.mp *= 3.0
+            again = ctx.call(ps.spike_sync_profile, st1, st2, _repeat=False, **kw)
+            if common.same_axis(ctx, again.x, xr, "sync:state-leak:returned-object-shared", "spike_sync_profile after the caller modified the previously returned profile"):
+                common.arr_exact(ctx, again.mp[1:-1], mpr, "sync:state-leak:returned-object-shared", "mp after the caller modified the previously returned profile")
+                if not ambiguous:
+                    common.arr_exact(ctx, again.y[1:-1], yr, "sync:state-leak:returned-object-shared", "y after the caller modified the previously returned profile")
+            Tw = te - ts
+            ts2, te2 = ts - Tw / 4, te + Tw / 2
+            w1 = ps.SpikeTrain(np.array(s1, dtype=float), [ts2, te2])
+            w2 = ps.SpikeTrain(np.array(s2, dtype=float), [ts2, te2])
+            nearw = ref.coincidences_ref(s1, s2, ts2, te2, mt or 0, m, want_ties=True)[4]
+            wide = ctx.call(ps.spike_sync_profile, w1, w2, _repeat=False, **kw)
+            xw, yw, mpw, _, _, _ = ref.sync_profile_ref(s1, s2, ts2, te2, mt or 0, m)
+            if common.same_axis(ctx, wide.x, xw, "sync:state-leak:same-spikes-other-interval", "spike_sync_profile of the same spike times on the wider interval"):
+                if not (nearw and not case.get("dyadic")):
+                    common.arr_exact(ctx, wide.y[1:-1], yw, "sync:state-leak:same-spikes-other-interval", "y on the wider interval")
         # per-spike indicator used by the filter, both directions
         impl = single_impl(ps)
         a1 = np.array(s1, dtype=float)
